@@ -1,14 +1,30 @@
 #!/bin/bash
-# tools/pin_gen.sh — records the regenerated fact modules of the CURRENT tree (lean/GIV/Gen/*.lean, as the groups'
-# factgen wrote them for /repo's HEAD) as the pinned facts (harness/pinned/Gen): the facts the theorems were last
-# proved for.  Run it (on the unchanged tree, after ./setup.sh or a green ./check) whenever a fix: commit or a
-# change to a fact extractor legitimately changes the facts.  The translated modules (*Go.lean) are pinned in
-# harness/pinned/ by hand together with their equivalence lemmas.
+# tools/pin_gen.sh — records the fact modules regenerated from the UNCHANGED tree (/repo's HEAD, no local changes) as the
+# pinned facts (harness/pinned/Gen): the facts the theorems were last proved for.  Run it whenever a fix: commit or a
+# change to a fact extractor legitimately changes the facts.  It takes the exclusive repository lock (no seeded change
+# can be applied meanwhile), rebuilds the groups' harness binaries, runs every factgen into a scratch directory and
+# copies the non-translated modules.  The translated modules (*Go.lean) are pinned in harness/pinned/ together with
+# their equivalence lemmas.  STAMP records which extractors wrote the pinned facts (./check ignores stale pins).
 cd /verif
+export GOFLAGS=-mod=mod GOPROXY=off GOSUMDB=off GOTOOLCHAIN=local CGO_ENABLED=0
+exec 9>/verif/.repo.lock
+flock -x 9
 if ! git -C /repo diff --quiet; then echo "pin_gen: /repo has local changes; refusing"; exit 2; fi
-mkdir -p harness/pinned/Gen
-for f in lean/GIV/Gen/*.lean; do
+tmp=$(mktemp -d /tmp/pin_gen.XXXXXX)
+trap 'rm -rf $tmp' EXIT
+(cd harness && go build -o $tmp/bin/ ./cmd/...) || { echo "pin_gen: harness does not build"; exit 2; }
+mkdir -p $tmp/gen harness/pinned/Gen
+cp lean/GIV/Gen/*.lean $tmp/gen/          # factgen only rewrites what changed
+for g in harness/cmd/*/; do g=$(basename $g); [ "$g" = go2lean ] && continue; $tmp/bin/$g factgen -repo /repo -out $tmp/gen >/dev/null || echo "pin_gen: factgen $g failed"; done
+for f in $tmp/gen/*.lean; do
   case "$f" in *Go.lean) continue;; esac
   cp "$f" harness/pinned/Gen/
 done
+python3 - <<'PY'
+import hashlib, glob
+h = hashlib.sha256()
+for f in sorted(glob.glob("harness/cmd/*/fact.go") + glob.glob("harness/internal/fact/*.go")):
+    h.update(open(f, "rb").read())
+open("harness/pinned/Gen/STAMP", "w").write(h.hexdigest()[:16] + "\n")
+PY
 ls harness/pinned/Gen | wc -l
